@@ -184,6 +184,95 @@ pub fn cancel_case<D: Distance>(spec: &HistorySpec, same_txn: bool, deletions_on
         }
         n += if n < 200 { 1 } else { stride };
     }
+    // The builder value itself reused: a cancelled build, abort, the callback replaced on the same builder, and the
+    // retry in a new transaction. "Retrying without the fault succeeds" does not say "with a fresh builder".
+    {
+        use rand::SeedableRng;
+        use std::sync::atomic::{AtomicU64, Ordering};
+        let n = total / 2;
+        let polls = AtomicU64::new(0);
+        let polls2 = AtomicU64::new(0);
+        let mut scratch = CaseStats::default();
+        let mut model1 = committed_model.clone();
+        let mut model2 = committed_model.clone();
+        let bound = poll_bound(committed_model[b.ix].items.len() + r1.ops.len(), 32);
+        type Reuse = Result<(Result<(), String>, Result<(), String>, Result<(), Fail>), Fail>;
+        let out = catch(|| {
+            crate::engine::in_pool(b.threads, || -> Reuse {
+                let mut rng = rand::rngs::StdRng::seed_from_u64(b.rng_seed);
+                let mut builder = writers[b.ix].builder(&mut rng);
+                if let Some(t) = b.n_trees {
+                    builder.n_trees(t);
+                }
+                if let Some(s) = b.split_after {
+                    builder.split_after(s);
+                }
+                if let Some(m) = b.avail_mem {
+                    builder.available_memory(m);
+                }
+                builder.cancel(|| polls.fetch_add(1, Ordering::Relaxed) >= n);
+                let mut wtxn = env.write_txn().map_err(|e| Fail::Infra(format!("{e}")))?;
+                if same_txn {
+                    for op in &r1.ops {
+                        apply_op(spec.metric, raw, &writers, &spec.indexes, &mut model1, &mut wtxn, op, &cfg, &mut scratch)?;
+                    }
+                }
+                let first = builder.build(&mut wtxn).map_err(|e| format!("{e:?}"));
+                wtxn.abort();
+                builder.cancel(|| polls2.fetch_add(1, Ordering::Relaxed) > bound);
+                let mut wtxn = env.write_txn().map_err(|e| Fail::Infra(format!("{e}")))?;
+                if same_txn {
+                    for op in &r1.ops {
+                        apply_op(spec.metric, raw, &writers, &spec.indexes, &mut model2, &mut wtxn, op, &cfg, &mut scratch)?;
+                    }
+                }
+                let second = builder.build(&mut wtxn).map_err(|e| format!("{e:?}"));
+                let valid = if second.is_ok() {
+                    let mut m = model2[b.ix].clone();
+                    m.built = true;
+                    m.stale = false;
+                    interp::check_built_index::<D>(spec.metric, db, raw, &wtxn, isp, &m, Some(&b), r1.qseed, &built_cfg(), &mut scratch)
+                } else {
+                    Ok(())
+                };
+                wtxn.abort();
+                Ok((first, second, valid))
+            })
+        });
+        match out {
+            Err(p) if p.in_harness() => return infra(format!("harness panic: {} at {}", p.message, p.location)),
+            Err(p) => return violation("reuse:panic", format!("cancelled build + retry on one builder value panicked: {} at {}", p.message, p.location)),
+            Ok(Err(f)) => return Err(f),
+            Ok(Ok((first, second, valid))) => {
+                let polled = polls.load(Ordering::Relaxed);
+                match &first {
+                    Err(e) if e == "BuildCancelled" && polled > n => {}
+                    Ok(()) if polled <= n => {}
+                    other => {
+                        return violation(
+                            "cancel:wrong-error",
+                            format!("build whose callback answers true from call {n} on (polled {polled} times) returned {other:?}"),
+                        )
+                    }
+                }
+                if polls2.load(Ordering::Relaxed) > bound {
+                    return violation("cancel:non-terminating", format!("retry on the reused builder did not finish within {bound} polls"));
+                }
+                if let Err(e) = second {
+                    return violation(
+                        "retry",
+                        format!("retry on the same builder value, its callback replaced by one that never cancels, failed: {e} (first attempt: {first:?})"),
+                    );
+                }
+                match valid {
+                    Ok(()) => {}
+                    Err(Fail::Violation(v)) => return violation("retry", format!("index invalid after the retry on the reused builder: [{}] {}", v.signature, v.message)),
+                    Err(e) => return Err(e),
+                }
+                st.bump("builder_reused_after_cancel");
+            }
+        }
+    }
     // retry without the fault and keep it
     {
         let mut model = committed_model.clone();
